@@ -72,8 +72,14 @@ async fn flush(n: usize) {
     if n == 0 { return; }
     let before = vh::SUBS_FLUSHED.load(SeqCst);
     vh::FLUSH_GEN.fetch_add(1, SeqCst);
+    let mut verif_bumped = Instant::now();
     let t0 = Instant::now();
     while vh::SUBS_FLUSHED.load(SeqCst) < before + n as u64 && t0.elapsed() < Duration::from_secs(20) {
+        if verif_bumped.elapsed() > Duration::from_millis(1500) {
+            // a loop that started after the bump took the bumped value as its baseline: bump again
+            vh::FLUSH_GEN.fetch_add(1, SeqCst);
+            verif_bumped = Instant::now();
+        }
         tokio::time::sleep(Duration::from_millis(3)).await;
     }
 }
